@@ -322,6 +322,47 @@ ExpRead(s) ==
 AllChampions(e) == \A i \in DOMAIN e.trials : \A j \in DOMAIN e.trials[i].gens : e.trials[i].gens[j].champ # NoChamp
 
 (* ======================================================================== *)
+(* 7. Reading into a value that is already in use.  Experiment.Read and      *)
+(*    Organism.UnmarshalBinary fill a value the caller supplies; it may hold *)
+(*    another (or the same) record whose derived statistics were computed    *)
+(*    before.  A held experiment carries run-time state next to what the     *)
+(*    file stores: per trial the cached winner generation (set by            *)
+(*    Trial.WinnerStatistics) and the trial duration (never written).        *)
+(*    inPlace = FALSE: Experiment.Decode as the code does it (fresh trials); *)
+(*    inPlace = TRUE: decoding into the trials the value already holds.      *)
+(* ======================================================================== *)
+FirstSolved(gens) == IF \E j \in DOMAIN gens : gens[j].solved
+                     THEN gens[CHOOSE j \in DOMAIN gens : gens[j].solved /\ \A k \in 1 .. j - 1 : ~gens[k].solved]
+                     ELSE NoChamp
+Held(e, queried) == [id |-> e.id, name |-> e.name,
+                     trials |-> Map(e.trials, LAMBDA t : [id |-> t.id, gens |-> t.gens, dur |-> IF queried THEN 1 ELSE 0,
+                                                          cache |-> IF queried THEN FirstSolved(t.gens) ELSE NoChamp])]
+FreshExp == [id |-> 0, name |-> "", trials |-> <<>>]
+ExpReadInto(prior, s, inPlace) ==
+    LET r == ExpRead(s) IN
+    IF r.err # "" THEN [e |-> prior, err |-> r.err]
+    ELSE LET reuse == inPlace /\ Len(prior.trials) >= Len(r.e.trials) IN
+         [e |-> [id |-> r.e.id, name |-> r.e.name,
+                 trials |-> [i \in DOMAIN r.e.trials |->
+                               [id |-> r.e.trials[i].id, gens |-> r.e.trials[i].gens,      \* all that Trial.Decode assigns
+                                dur |-> IF reuse THEN prior.trials[i].dur ELSE 0,
+                                cache |-> IF reuse THEN prior.trials[i].cache ELSE NoChamp]]],
+          err |-> ""]
+WinnerStats(t) == LET w == IF t.cache # NoChamp THEN t.cache ELSE FirstSolved(t.gens) IN          \* trial.go:133
+                  IF w = NoChamp THEN <<-1, -1, -1, -1>> ELSE <<w.wn, w.wg, w.we, w.div>>
+(* the result of a read depends on the file only *)
+ReadIntoLaw(prior, e, inPlace) ==
+    AllChampions(e) =>
+        LET r == ExpReadInto(prior, ExpStream(e), inPlace) IN
+        /\ r = [e |-> Held(e, FALSE), err |-> ""]
+        /\ \A i \in DOMAIN e.trials : WinnerStats(r.e.trials[i]) = WinnerStats(Held(e, FALSE).trials[i])
+(* organism: UnmarshalBinary assigns the five header/genome fields, everything else of the target survives *)
+OrgReadInto(prior, lines) == LET r == OrgRead(lines) IN
+                             [o |-> IF r.err # "" THEN prior ELSE r.o @@ prior, err |-> r.err]         \* r.o's fields win
+OrgIntoLaw(prior, o) == LET r == OrgReadInto(prior, OrgLines(o)) IN
+                        r.err = "" /\ [f \in {"fit", "gen", "hf", "pcc", "g"} |-> r.o[f]] = [o EXCEPT !.g = NoMods(o.g)]
+
+(* ======================================================================== *)
 (* The laws of C15 (checked by MC_Codec on every structure in scope)         *)
 (* ======================================================================== *)
 PlainLaw(g) == PlainRead(PlainLines(g)) = [g |-> NoMods(g), err |-> ""]          \* incl.: the plain format omits modules
